@@ -330,7 +330,8 @@ def _tamper_wire(ctx, case):
         bits = list(range(case["part"], nbits, 8))
     else:
         r = random.Random(case["bseed"])
-        bits = [5 * 8 + b for b in range(8)] + r.sample(range(nbits), 14)
+        # always: the type/pad byte and the whole 16-bit size field (framing-level faults); plus a random sample of the rest
+        bits = [5 * 8 + b for b in range(8)] + [2 * 8 + b for b in range(16)] + r.sample(range(nbits), 14)
     for bi in bits:
         pos, bit = divmod(bi, 8)
         net = H.new_net()
